@@ -150,12 +150,13 @@ pub fn dtls_class(d: &[u8]) -> DClass {
     }
 }
 
-fn gcm_aad(full_seq: u64, ct: u8, len: usize) -> [u8; 13] {
+fn gcm_aad(full_seq: u64, ct: u8, version: (u8, u8), len: usize) -> [u8; 13] {
     let mut aad = [0u8; 13];
     aad[0..8].copy_from_slice(&full_seq.to_be_bytes());
     aad[8] = ct;
-    aad[9] = 0xFE;
-    aad[10] = 0xFD;
+    // RFC 5246 6.2.3.3: the additional data covers the version of the record header as received
+    aad[9] = version.0;
+    aad[10] = version.1;
     aad[11..13].copy_from_slice(&(len as u16).to_be_bytes());
     aad
 }
@@ -170,7 +171,7 @@ pub fn dtls_open(key: &[u8], iv: &[u8], rec: &DtlsRec) -> Option<Vec<u8>> {
     nonce[..4].copy_from_slice(iv);
     nonce[4..].copy_from_slice(&rec.body[..8]);
     let cipher = Aes128Gcm::new_from_slice(key).ok()?;
-    let aad = gcm_aad(full_seq, rec.content_type, rec.body.len() - 24);
+    let aad = gcm_aad(full_seq, rec.content_type, rec.version, rec.body.len() - 24);
     cipher
         .decrypt(
             Nonce::from_slice(&nonce),
@@ -189,7 +190,7 @@ pub fn dtls_seal(key: &[u8], iv: &[u8], ct: u8, epoch: u16, seq: u64, plain: &[u
     nonce[..4].copy_from_slice(iv);
     nonce[4..].copy_from_slice(&full_seq.to_be_bytes());
     let cipher = Aes128Gcm::new_from_slice(key).expect("key");
-    let aad = gcm_aad(full_seq, ct, plain.len());
+    let aad = gcm_aad(full_seq, ct, (0xFE, 0xFD), plain.len());
     let c = cipher
         .encrypt(
             Nonce::from_slice(&nonce),
